@@ -291,14 +291,26 @@ func mbSpec(req int, oddBudget int) *engine.BFS[*mbState] {
 }
 
 // mbLifecycle: create, use, destroy — the mappings and the backing file must be gone.
-func mbLifecycle(req int) *engine.Violation {
-	mb, err := sbytes.NewMirroredBuffer(req, false)
+func mbLifecycle(req int, variant ...int) *engine.Violation {
+	// variant 0: plain; 1: constructed with prefault; 2: Prefault() called on the live buffer ("can be called after
+	// initialization")
+	v := 0
+	if len(variant) > 0 {
+		v = variant[0]
+	}
+	mb, err := sbytes.NewMirroredBuffer(req, v == 1)
 	if err != nil {
 		engine.HarnessError("NewMirroredBuffer(%d): %v", req, err)
 	}
 	c := mb.Claim(mb.Size())
 	base := uintptr(unsafe.Pointer(unsafe.SliceData(c)))
 	size := mb.Size()
+	if v == 2 {
+		mb.Prefault()
+		if c2 := mb.Claim(size); len(c2) != size || uintptr(unsafe.Pointer(unsafe.SliceData(c2))) != base {
+			return mbViol("mirrored.Prefault/claim-changed", "after Prefault() Claim(size) has length %d at offset %d", len(c2), int(uintptr(unsafe.Pointer(unsafe.SliceData(c2)))-base))
+		}
+	}
 	c[0] = 1
 	mb.Commit(1)
 	name := mb.Name()
@@ -629,9 +641,12 @@ func C11(tier string) *engine.Report {
 			r.Capped = true // this search is meant to reach a fixpoint; anything less is reported as not exhaustive
 		}
 		tot.Add(sp.Name, r, rep)
-		if v := mbLifecycle(req); v != nil {
-			v.Config = fmt.Sprintf("lifecycle,request=%d", req)
-			rep.Add(*v)
+		for variant := 0; variant < 3; variant++ {
+			if v := mbLifecycle(req, variant); v != nil {
+				v.Config = fmt.Sprintf("lifecycle,request=%d,variant=%d", req, variant)
+				rep.Add(*v)
+				break
+			}
 		}
 		if v := mbDestroyTwice(req); v != nil {
 			v.Config = fmt.Sprintf("destroytwice,request=%d", req)
@@ -652,7 +667,7 @@ func C11(tier string) *engine.Report {
 	rep.Coverage["constructions_refused_or_huge"] = nc
 	tot.Fill(rep, "reachable states of a real MirroredBuffer per requested size (1-6/8 pages and three sizes that are rounded up) under Claim/Commit/Consume with amounts on the half-page grid, size+1 and "+
 		"at most K odd amounts {1,u+1,size-1}, and Reset, BFS to fixpoint; state = implementation integers + model (head,used) + odd amounts spent; claims are judged by address against the ring model, "+
-		"filled with tags and read back through both mappings; plus one create/use/Destroy lifecycle per size checked against /proc/self/maps and the backing file, and one destroy-A, create-B, destroy-A-again sequence per size (B keeps both mappings); plus a fixed walk (round once, write through a claim crossing the end, round again, read ring positions 0..7 back through the first mapping) for 10 large sizes from 1 MiB + 1 page to 1 GiB + 1 page around the 2 MiB multiples; plus a construction with no descriptor free and 10 constructions with invalid, huge (2^36..2^62, refused by the kernel at the reservation or granted and destroyed) sizes checked against the descriptor census, /dev/shm and the mappings")
+		"filled with tags and read back through both mappings; plus three create/use/Destroy lifecycles per size (plain, constructed with prefault, Prefault() on the live buffer) checked against /proc/self/maps and the backing file, and one destroy-A, create-B, destroy-A-again sequence per size (B keeps both mappings); plus a fixed walk (round once, write through a claim crossing the end, round again, read ring positions 0..7 back through the first mapping) for 10 large sizes from 1 MiB + 1 page to 1 GiB + 1 page around the 2 MiB multiples; plus a construction with no descriptor free and 10 constructions with invalid, huge (2^36..2^62, refused by the kernel at the reservation or granted and destroyed) sizes checked against the descriptor census, /dev/shm and the mappings")
 	rep.Coverage["lifecycles"] = len(mbRequests(tier))
 	return rep
 }
@@ -668,8 +683,9 @@ func C11Replay(v engine.Violation, log func(string)) *engine.Violation {
 		return mbLargeRing(req)
 	}
 	if strings.HasPrefix(v.Config, "lifecycle") {
-		fmt.Sscanf(v.Config, "lifecycle,request=%d", &req)
-		return mbLifecycle(req)
+		var variant int
+		fmt.Sscanf(v.Config, "lifecycle,request=%d,variant=%d", &req, &variant)
+		return mbLifecycle(req, variant)
 	}
 	if strings.HasPrefix(v.Config, "construction") {
 		_, vs := mbFailedConstruction()
